@@ -118,8 +118,9 @@ Definition round2c (v : Q) : Z := Qrint (v * 100)%Q.
 Definition round1c (v : Q) : Z := Qrint (v * 10)%Q.
 
 (** print [n / 10^k] ([n >= 0]) with exactly [k] fractional digits *)
-Fixpoint pad_zeros (k : nat) (s : string) : string :=
-  match k with O => s | S k' => if (String.length s <? k)%nat then pad_zeros k' (String "0" s) else s end.
+Definition pad_zeros (k : nat) (s : string) : string :=
+  (fix go (n : nat) : string := match n with O => s | S n' => String "0" (go n') end)
+    (k - String.length s).
 Definition frac_digits (n : N) (k : nat) : string :=
   let s := decN (n mod (10 ^ N.of_nat k))%N in
   pad_zeros k s.
